@@ -137,8 +137,15 @@ Units aimed_template(jm::Entropy &e, std::string *ops) {
     static const char *t[] = {"{math:abc=={var:T}}", "{math:abc!={var:T}}", "x{if case=\"abc=={var:T}\" true=\"y\"}", "<if case=\"abc!={var:T}\">y</if>",
                               "{math:{var:q0}=={var:s}}", "{if case=\"{var:q0}!={var:ns}\" true=\"1\" false=\"0\"}", "{math:{var:sh}=={var:lg}}",
                               "<if case=\"{var:sh}!={var:lg}\">y<else />n</if>", "{math:{var:q0}=={var:T}}abc", "{math:(abc=={var:T})}", "{math:1+(abc=={var:T})}",
-                              "<loop value=\"v\">{if case=\"{var:v}=={var:lg}\" true=\"=\"}</loop>{math:abc=={var:T}}"};
-    const unsigned     k  = e.below(12);
+                              "<loop value=\"v\">{if case=\"{var:v}=={var:lg}\" true=\"=\"}</loop>{math:abc=={var:T}}",
+                              // a loop whose value name is written before its set and is a prefix of (or equal to) the set's name, alone, after a
+                              // sorted / grouped sibling loop, and nested under a loop of the same name
+                              "<loop value=\"l\" set=\"l\">{var:l}</loop>", "<loop value=\"a\" set=\"arr\">{var:a}</loop>",
+                              "<loop set=\"l\" value=\"x\" sort=\"descend\">{var:x}</loop><loop value=\"l\" set=\"l\">[{var:l}]</loop>",
+                              "<loop set=\"o\" value=\"i\"><loop value=\"i\" set=\"i\">{var:i}</loop></loop>",
+                              "<loop value=\"k\" set=\"k1\" sort=\"ascend\">{var:k}</loop><loop value=\"k\" set=\"k2\">{var:k}{var:k[0]}</loop>",
+                              "<loop value=\"s\" sort=\"ascend\" set=\"s\">{raw:s}</loop>"};
+    const unsigned     k  = e.below(18);
     if (ops) *ops += "aimed-comparison=" + std::to_string(k) + ";";
     Units u;
     for (const char *p = t[k]; *p; ++p) {
